@@ -238,6 +238,9 @@ pub fn build_table_from_data(
             max_symbol = idx;
         }
     }
+    // Always describe at least two symbols: the zero-bit avoidance below needs a second
+    // symbol to move probability to, also when the data consists of symbol 0 only.
+    let max_symbol = max_symbol.max(1);
     build_table_from_counts(&counts[..=max_symbol], max_log, avoid_0_numbit)
 }
 
